@@ -994,6 +994,112 @@ func ruleC15Range(cx *Ctx) {
 		n++
 		cx.R.Check(hf.anyHeld(a.in), rule, name, fmt.Sprintf("slot read#%d under lock", n), cx.P.where(a.in), "bucket slots are snapshotted under the root-bucket lock")
 	}
+	// a chain is snapshotted under ONE hold of its root lock: the step to the next bucket of the chain is taken with the
+	// lock still held (re-locking per bucket lets a key move between two buckets of a chain and be yielded twice)
+	nextF := cx.P.Field(hmPkg, "bucket", "next")
+	nAdv := 0
+	chainAdvance := func(f *ssa.Function, h *heldFlow, siteHeld bool) {
+		allInstrs(f, func(in ssa.Instruction) {
+			if nextF != nil && isStdMethod(in, "sync/atomic", "", "Load") && sameField(recvField(in), nextF) {
+				nAdv++
+				cx.R.Check(h.anyHeld(in) || siteHeld, rule, funcName(f), fmt.Sprintf("chain advance#%d under the root lock", nAdv), cx.P.where(in), "the next bucket of a chain is read while the root-bucket lock taken for this chain is still held")
+			}
+		})
+	}
+	chainAdvance(fn, hf, false)
+	// ... and stays held until the slots of that next bucket have been read: no path from the step to a slot read of the
+	// bucket it yielded passes an Unlock
+	allInstrs(fn, func(adv ssa.Instruction) {
+		if nextF == nil || !isStdMethod(adv, "sync/atomic", "", "Load") || !sameField(recvField(adv), nextF) {
+			return
+		}
+		av, _ := adv.(ssa.Value)
+		derived := map[ssa.Value]bool{av: true}
+		for changed := true; changed; {
+			changed = false
+			allInstrs(fn, func(x ssa.Instruction) {
+				if ph, ok := x.(*ssa.Phi); ok && !derived[ph] {
+					for _, e := range ph.Edges {
+						if derived[e] {
+							derived[ph] = true
+							changed = true
+						}
+					}
+				}
+			})
+		}
+		isSlotRead := func(x ssa.Instruction) bool {
+			for _, a := range nodeSlotAccesses(cx, fn) {
+				if a.in == x {
+					// base of the slot: &b.bucket.nodes[i] -> b
+					v := a.base
+					for {
+						if fa, ok := v.(*ssa.FieldAddr); ok {
+							v = fa.X
+							continue
+						}
+						break
+					}
+					return derived[v]
+				}
+			}
+			return false
+		}
+		type st struct {
+			b   *ssa.BasicBlock
+			unl bool
+		}
+		seen := map[st]bool{}
+		bad := ""
+		var walk func(b *ssa.BasicBlock, i int, unl bool)
+		walk = func(b *ssa.BasicBlock, i int, unl bool) {
+			for ; i < len(b.Instrs) && bad == ""; i++ {
+				x := b.Instrs[i]
+				if _, isDefer := x.(*ssa.Defer); !isDefer {
+					if _, lock, ok := bucketMuOp(cx)(x); ok && !lock {
+						unl = true
+					}
+				}
+				if unl && isSlotRead(x) {
+					bad = cx.P.where(x)
+				}
+			}
+			for _, succ := range b.Succs {
+				// does the chain continue along this edge?
+				cont := false
+				hasPhi := false
+				pi := -1
+				for k, p := range succ.Preds {
+					if p == b {
+						pi = k
+					}
+				}
+				for _, x := range succ.Instrs {
+					ph, ok := x.(*ssa.Phi)
+					if !ok {
+						break
+					}
+					if derived[ph] {
+						hasPhi = true
+						if pi >= 0 && derived[ph.Edges[pi]] {
+							cont = true
+						}
+					}
+				}
+				if hasPhi && !cont {
+					continue // the cursor is reset to a root bucket on this edge
+				}
+				k := st{succ, unl}
+				if !seen[k] {
+					seen[k] = true
+					walk(succ, 0, unl)
+				}
+			}
+		}
+		pt := ptOf(adv)
+		walk(pt.B, pt.I+1, false)
+		cx.R.Check(bad == "", rule, name, "one lock hold per chain", cx.P.where(adv), "from the step to the next bucket of a chain to the reads of that bucket's slots the root lock is not released "+bad)
+	})
 	// helpers Range delegates to (snapshot / visit steps): the same two obligations, the lock state at the call site counted in
 	allInstrs(fn, func(site ssa.Instruction) {
 		g := calleeOf(site)
@@ -1014,6 +1120,7 @@ func ruleC15Range(cx *Ctx) {
 				cx.R.Check(!hg.anyHeld(c) && !siteHeld, rule, funcName(g), fmt.Sprintf("callback#%d outside lock", nCb), cx.P.where(c), "the user function is called with no bucket lock held (it may re-enter the map)")
 			}
 		}
+		chainAdvance(g, hg, siteHeld)
 		for _, a := range nodeSlotAccesses(cx, g) {
 			n++
 			cx.R.Check(hg.anyHeld(a.in) || siteHeld, rule, funcName(g), fmt.Sprintf("slot read#%d under lock", n), cx.P.where(a.in), "bucket slots are snapshotted under the root-bucket lock")
